@@ -543,7 +543,7 @@ def run_property(prop, tier: str, seed: int) -> int:
                 )
             violations.append((key[0], path, detail, b["count"]))
     for key in sorted(known_keys):
-        f = next(x for x in known.open if x["id"] == key[1])
+        f = next(x for x in known.open if x["id"] == key[1] and x["property"] == prop.ID)
         print(f"KNOWN-FINDING: property={prop.ID} {f['what']} [id={f['id']} bucket={key[0]} seen={total.buckets[key]['count']}]")
     for bucket, path, detail, count in violations:
         print(f"VIOLATION property={prop.ID} replay={path}")
